@@ -64,6 +64,82 @@ def closes_all_param(ctx, u: Unit, pname: str) -> bool:
     return False
 
 
+def closes_own_param(ctx, u: Unit, pname: str) -> bool:
+    """Summary "this coroutine closes the iterator it is given": on every normal path from
+    entry to exit it awaits ``<pname>.aclose()`` or takes an edge on which the object is known
+    to have no ``aclose``; it suspends nowhere else.  Lets a per-iterator cleanup helper live
+    anywhere in the package (``await _close(it)``)."""
+    if u.kind != "coroutine" or pname not in u.param_names():
+        return False
+    memo = ctx.__dict__.setdefault("_closes_own_param", {})
+    key = (id(u.node), pname)
+    if key in memo:
+        return memo[key]
+    memo[key] = False
+    v = ctx.inlined(u)
+    cfg = cfg_of(v)
+    closes = set()
+    for n in cfg.nodes:
+        if n.kind == "await" and not n.tag and _names_aclose(ctx, v, n.info.get("value"), n):
+            recv = _aclose_receiver(ctx, v, n.info.get("value"), n)
+            if isinstance(recv, ast.Name) and recv.id == pname:
+                closes.add(n)
+    others = [n for n in cfg.nodes if n.kind in ("await", "yield", "pull", "enter", "exit_cm") and not n.tag and n not in closes]
+    if not closes or others:
+        return False
+    no_aclose = {n: no_aclose_edge(ctx, v, n) for n in cfg.nodes if n.kind == "branch"}
+
+    def edge(a: Node, lab: str, b: Node) -> bool:
+        if lab == "p":
+            return False
+        if lab == "e":
+            return a.kind == "attr" and b.kind == "dispatch"  # attribute lookup failing into its handler
+        if a.kind == "dispatch":
+            return False  # ... and that handler (AttributeError) means: nothing to close
+        if a.kind == "branch" and lab == "f" and "ACloseable" in norm(a.ast):
+            return False
+        if a.kind == "branch" and no_aclose.get(a) and lab == no_aclose[a]:
+            return False
+        return True
+
+    leak = find_path(cfg.entry, lambda x: x is cfg.exit, avoid=lambda x: x in closes, edge_ok=edge)
+    memo[key] = leak is None
+    return memo[key]
+
+
+def _is_close_helper_await(ctx, unit: Unit, n: Node, src: Optional[str]) -> bool:
+    """``await helper(x)`` where ``helper`` is summarised by closes_own_param and x is an
+    iterator of src."""
+    if n.kind != "await":
+        return False
+    call = n.info.get("value")
+    if not isinstance(call, ast.Call) or not call.args or call.keywords:
+        return False
+    try:
+        fv = ctx.vals.expr(unit, call.func, n)
+    except Exception:  # noqa: BLE001
+        return False
+    for f in fv:
+        target, off = None, 0
+        if f[0] == "libfn":
+            target = ctx.pkg.lib_unit(f[1])
+        elif f[0] == "bound":
+            target, off = ctx.vals.find_method(f[1], f[2]), 1
+        if target is None or target.kind != "coroutine":
+            continue
+        names = target.param_names()[off:] if not target.is_static() else target.param_names()
+        if len(call.args) != 1 or not names:
+            continue
+        if not closes_own_param(ctx, target, names[0]):
+            continue
+        if src is None:
+            return True
+        av = ctx.vals.expr(unit, call.args[0], n)
+        if any(a[0] in ("iter", "user", "item") and a[1] in (src, src + "[]") for a in av):
+            return True
+    return False
+
+
 def iterable_params(ctx) -> List[Tuple[Unit, str, str]]:
     out = []
     for u in real_units(ctx):
@@ -114,9 +190,14 @@ def _closes_owner_generator(ctx, unit: Unit, n: Node, src: str) -> bool:
     """K3': ``await g.aclose()`` where ``g`` is a library async generator that was handed the
     iterable (``g = aiter(zip(*iterable))``): the generator owns it (and is checked for its own
     parameter), closing the generator is this function's release."""
-    if n.kind != "await" or not _names_aclose(ctx, unit, n.info.get("value"), n):
+    if n.kind != "await":
         return False
-    recv = _aclose_receiver(ctx, unit, n.info.get("value"), n)
+    if _names_aclose(ctx, unit, n.info.get("value"), n):
+        recv = _aclose_receiver(ctx, unit, n.info.get("value"), n)
+    elif _is_close_helper_await(ctx, unit, n, None):
+        recv = n.info["value"].args[0]
+    else:
+        return False
     if not isinstance(recv, ast.Name):
         return False
     v = ctx.vals.expr(unit, recv, n)
@@ -195,7 +276,7 @@ def _loop_closes_all(ctx, unit: Unit, cfg: CFG, siter: Node, src: str, elements_
     if not body_entry:
         return False
     closes = [n for n in cfg.nodes if n.in_region("loop", loop) and n.tag == siter.tag
-              and _is_aclose_await(ctx, unit, n, src)]
+              and (_is_aclose_await(ctx, unit, n, src) or _is_close_helper_await(ctx, unit, n, src))]
     if not closes:
         return False
     closeset = set(closes)
@@ -304,6 +385,8 @@ def close_nodes(ctx, unit: Unit, cfg: CFG, src: str, findings: List[Tuple[Node, 
                 # direct close of a single iterator (not inside a per-element loop)
                 if not n.in_loop():
                     out.add(n)
+            elif _is_close_helper_await(ctx, unit, n, src) and not n.in_loop():
+                out.add(n)
             elif _is_transfer_await(ctx, unit, n, src):
                 out.add(n)
             elif _closes_owner_generator(ctx, unit, n, src) and not n.in_loop():
